@@ -425,12 +425,17 @@ Hypothesis Hlen : ilen inp <= U64MAX.
 Hypothesis Hcum : forall t, cumulative_mdat_box_size cfg = Some t -> t <= U32MAX.
 Let cum := cumulative_mdat_box_size cfg.
 
-Theorem resanitize_fixpoint fuel fuel2 o md pad :
+(* the spliced file as the specification reads it (its tiling, its last moov and that moov's payload = the returned moov payload)
+   together with the result of the second run *)
+Theorem resanitize_structure fuel fuel2 o md pad :
   mp4_sanitize cfg lenient U64MAX' inp fuel = Ok o -> o_metadata o = Some (md, pad) ->
   let J := splice md pad inp (s_off (o_data o)) (s_len (o_data o)) in
   ilen J <= U64MAX -> (N.to_nat (ilen J / 8) < fuel2)%nat ->
-  mp4_sanitize cfg lenient2 U64MAX' J fuel2 =
-  Ok {| o_metadata := None; o_data := {| s_off := blen md + pad; s_len := s_len (o_data o) |} |}.
+  exists bs2 m2 fp mp psz,
+    metadata_shape (md_input md pad) = Some (fp, mp, psz) /\
+    tiling cum J = Some bs2 /\ last_moov bs2 = Some m2 /\ tb_payload J m2 = mp /\
+    mp4_sanitize cfg lenient2 U64MAX' J fuel2 =
+    Ok {| o_metadata := None; o_data := {| s_off := blen md + pad; s_len := s_len (o_data o) |} |}.
 Proof.
   intros H E J HJl Hfuel.
   assert (Hms : ilen inp <= U64MAX') by exact Hlen.
@@ -503,6 +508,10 @@ Proof.
   assert (Frest : forallb is_filler rest = true) by (unfold rest; rewrite forallb_app, Ftl, Hfill'; reflexivity).
   set (bs2 := f2 :: m2 :: rest) in *.
   assert (T2 : tiling cum J = Some bs2) by (rewrite tiling_tile_all; apply seg_tile_all; exact Sall).
+  assert (Elm2 : last_moov bs2 = Some m2).
+  { unfold last_moov, bs2. cbn [filter]. rewrite !is_moov_kind, Kf2, Km2.
+    rewrite (filter_fillers MOOV rest Frest (or_intror eq_refl)). reflexivity. }
+  exists bs2, m2, fp, mp, psz. split; [exact Shape|]. split; [exact T2|]. split; [exact Elm2|]. split; [exact Pm|].
   (* the second run *)
   assert (HmsJ : ilen J <= U64MAX') by exact HJl.
   rewrite (loop_fuel_enough J lenient2 U64MAX' cfg HmsJ Hms64 Hcum fuel2 bs2 T2 Hfuel).
@@ -538,12 +547,20 @@ Proof.
   destruct (fold_data_none cfg J bs2 st0 0 (ilen J) s2 Hc2 eq_refl Ef2) as (Fd2 & _ & _). rewrite MR2 in Fd2.
   assert (Etf2 : the_ftyp bs2 = Some f2).
   { unfold the_ftyp, bs2. cbn [filter]. rewrite is_ftyp_kind, Kf2. reflexivity. }
-  assert (Elm2 : last_moov bs2 = Some m2).
-  { unfold last_moov, bs2. cbn [filter]. rewrite !is_moov_kind, Kf2, Km2.
-    rewrite (filter_fillers MOOV rest Frest (or_intror eq_refl)). reflexivity. }
   rewrite Etf2, Pf in Ff2. rewrite Elm2 in Fm2. destruct Fm2 as (kids2 & _ & Fm2).
   unfold finish_p. rewrite Ff2, Fm2, Fd2. cbn [s_off].
   destruct (N.ltb_spec (tb_off m2) M); [reflexivity | lia].
+Qed.
+
+Theorem resanitize_fixpoint fuel fuel2 o md pad :
+  mp4_sanitize cfg lenient U64MAX' inp fuel = Ok o -> o_metadata o = Some (md, pad) ->
+  let J := splice md pad inp (s_off (o_data o)) (s_len (o_data o)) in
+  ilen J <= U64MAX -> (N.to_nat (ilen J / 8) < fuel2)%nat ->
+  mp4_sanitize cfg lenient2 U64MAX' J fuel2 =
+  Ok {| o_metadata := None; o_data := {| s_off := blen md + pad; s_len := s_len (o_data o) |} |}.
+Proof.
+  intros H E J HJl Hfuel.
+  destruct (resanitize_structure fuel fuel2 o md pad H E HJl Hfuel) as (bs2 & m2 & fp & mp & psz & _ & _ & _ & _ & R). exact R.
 Qed.
 
 End Resanitize.
